@@ -1,7 +1,152 @@
 import Aqv.Base.Proto
-open Aqv Aqv.Proto
+import Aqv.Model.Supply
+open Aqv Aqv.Proto Aqv.Tx Aqv.Supply
 
-/-- stub driver for C05 (answers every case line with "bad-op"); replaced when the property is built. -/
-def handle (l : String) : String := let _ := l; "bad-op\tagree"
+/-!
+  Model driver for C05. Case kinds (see go/harness/cmd/c05/main.go):
+    rw  <h> <cb> <uncles>                         uncles = num:who,… | -        → balances after accumulateRewards on an empty state
+    tx  <sender> <coinbase> <gas·price> <pre> <log…>                            → balances after the transaction (after Finalise)
+        log tokens: S<a>:<v> SubBalance, A<a>:<v> AddBalance, K<a> Suicide (true), k<a> Suicide (false), C<a> CreateAccount,
+                    P<id> Snapshot → id, R<id> RevertToSnapshot(id)
+    blk <h> <hf4> <cb> <uncles> <dealloc|-> <pre> <selfdestructs> <Σafter>        → Σafter (exact) | bounded
+  balances = i:bal,i:bal,… (non-zero ones, by account index) | -
+-/
+
+def nat? (s : String) : Option Nat := s.toNat?
+
+def parseBalances (s : String) : Option AMap :=
+  if s == "-" then some [] else
+  (s.splitOn ",").mapM (fun p => match p.splitOn ":" with
+    | [a, b] => do let x ← nat? a; let y ← nat? b; pure (x, y)
+    | _ => none)
+
+def parseUncles (s : String) : Option (List Uncle) := parseBalances s
+
+def parseIdxList (s : String) : Option (List Nat) :=
+  if s == "-" then some [] else (s.splitOn ",").mapM nat?
+
+/-- canonical rendering: non-zero balances by increasing account index. -/
+def showBalances (m : AMap) : String :=
+  let keys := (m.map (·.1)).eraseDups
+  let sorted := keys.toArray.qsort (· < ·) |>.toList
+  let xs := sorted.filterMap (fun k => let v := lookup m k; if v == 0 then none else some (toString k ++ ":" ++ toString v))
+  if xs.isEmpty then "-" else ",".intercalate xs
+
+inductive Tok
+  | sub (a v : Nat) | add (a v : Nat) | kill (a : Nat) | killFalse (a : Nat) | create (a : Nat) | snap (id : Nat) | rev (id : Nat)
+
+def parseTok (s : String) : Option Tok :=
+  let body := strDrop s 1
+  match s.toList.head? with
+  | some 'S' => (match body.splitOn ":" with | [a, v] => do pure (.sub (← nat? a) (← nat? v)) | _ => none)
+  | some 'A' => (match body.splitOn ":" with | [a, v] => do pure (.add (← nat? a) (← nat? v)) | _ => none)
+  | some 'K' => do pure (.kill (← nat? body))
+  | some 'k' => do pure (.killFalse (← nat? body))
+  | some 'C' => do pure (.create (← nat? body))
+  | some 'P' => do pure (.snap (← nat? body))
+  | some 'R' => do pure (.rev (← nat? body))
+  | _ => none
+
+/-- parse the EVM part of the raw log into a word over the alphabet, executing it on the machine as we go (the suicide pattern
+    `AddBalance(b, x); Suicide(a)` needs the current balance x of a). `ids` = revision ids of the live snapshots, oldest first. -/
+def runBody : List Tok → Machine → List Nat → Except String Machine
+  | [], M, _ => .ok M
+  | .create a :: rest, M, ids => runBody rest (step M (.createAccount a)) ids
+  | .snap id :: rest, M, ids => runBody rest (step M .snapshot) (ids ++ [id])
+  | .rev id :: rest, M, ids =>
+    match ids.findIdx? (· == id) with
+    | some k => runBody rest (step M (.revert k)) (ids.take k)
+    | none => .error "revert-to-unknown-snapshot"
+  | .sub a v :: .add b v' :: rest, M, ids =>
+    if v != v' then .error "sub-add-amounts-differ"
+    else if lookup M.cur.bal a < v then .error "transfer-without-funds"   -- CanTransfer must have guarded it
+    else runBody rest (step M (.transfer a b v)) ids
+  | .add b x :: .kill a :: rest, M, ids =>
+    if x != lookup M.cur.bal a then .error "suicide-credit-differs-from-balance"
+    else runBody rest (step M (.suicide a b)) ids
+  | .sub _ _ :: _, _, _ => .error "bare-SubBalance"
+  | .add _ _ :: _, _, _ => .error "bare-AddBalance"
+  | .kill _ :: _, _, _ => .error "bare-Suicide"
+  | .killFalse _ :: _, _, _ => .error "suicide-of-missing-account"
+
+/-- one transaction: [CreateAccount sender]* buyGas body refund fee, then Finalise. -/
+def runTx (sender coinbase mgval : Nat) (pre : AMap) (toks : List Tok) : Except String AMap :=
+  let rec dropCreates : List Tok → List Tok
+    | .create a :: rest => if a == sender then dropCreates rest else .create a :: rest
+    | ts => ts
+  match dropCreates toks with
+  | .sub s v :: rest =>
+    if s != sender || v != mgval then .error "first-debit-is-not-buyGas"
+    else if lookup pre s < v then .error "buyGas-without-funds"
+    else
+      let bal1 := if v == 0 then pre else update pre s (lookup pre s - v)
+      let n := rest.length
+      if n < 2 then .error "missing-refund-or-fee"
+      else
+        match rest.drop (n - 2) with
+        | [.add s2 r, .add c f] =>
+          if s2 != sender then .error "refund-not-to-sender"
+          else if c != coinbase then .error "fee-not-to-coinbase"
+          else if r + f != mgval then .error "refund+fee-differs-from-prepaid-gas"
+          else
+            match runBody (rest.take (n - 2)) { cur := { bal := bal1, suicided := [] }, snaps := [] } [] with
+            | .error e => .error e
+            | .ok M =>
+              let w : SWorld := { bal := M.cur.bal, nonce := [], rest := M.cur.suicided }
+              let w := addBal (addBal w sender r) coinbase f
+              .ok (finWorld w).bal
+        | _ => .error "tail-is-not-refund-fee"
+  | _ => .error "no-buyGas"
+
+def handleTx (fs : List String) (go : String) : String :=
+  match fs with
+  | sender :: coinbase :: mgval :: pre :: log =>
+    match nat? sender, nat? coinbase, nat? mgval, parseBalances pre, log.mapM parseTok with
+    | some s, some c, some g, some pre, some toks =>
+      match runTx s c g pre toks with
+      | .error e => "outside-alphabet:" ++ e ++ "\tspec-reject:balance-change-outside-the-modelled-alphabet"
+      | .ok bal =>
+        -- Spec on the Go result: Σ after ≤ Σ before
+        let specOk := match parseBalances go with
+          | some after => total after ≤ total pre
+          | none => false
+        verdict (showBalances bal) go specOk "supply-increased-by-transaction"
+    | _, _, _, _, _ => "bad-op\tagree"
+  | _ => "bad-op\tagree"
+
+def handleRw (fs : List String) (go : String) : String :=
+  match fs with
+  | [h, cb, uncles] =>
+    match nat? h, nat? cb, parseUncles uncles with
+    | some h, some cb, some us =>
+      let w := accumulateRewards h cb us { bal := [], nonce := [], rest := [] }
+      let specOk := match parseBalances go with
+        | some after => total after == issuance h us
+        | none => false
+      verdict (showBalances w.bal) go specOk "issuance-differs-from-schedule"
+    | _, _, _ => "bad-op\tagree"
+  | _ => "bad-op\tagree"
+
+def handleBlk (fs : List String) (go : String) : String :=
+  match fs with
+  | [h, hf4, cb, uncles, dealloc, pre, sd, after] =>
+    match nat? h, nat? cb, parseUncles uncles, parseIdxList dealloc, parseBalances pre, nat? sd, nat? after with
+    | some h, some _, some us, some dl, some pre, some sd, some after =>
+      let w : SWorld := { bal := pre, nonce := [], rest := [] }
+      let w1 := if hf4 == "1" then applyHF4 dl w else w
+      let bound := total w1.bal + issuance h us
+      let m := if sd == 0 then toString bound else (if after ≤ bound then "bounded" else "exceeds")
+      -- Spec on the Go result: never above Σ before + issuance
+      verdict m go (after ≤ total pre + issuance h us && (sd > 0 || hf4 == "1" || after == total pre + issuance h us)) "supply-above-issuance"
+    | _, _, _, _, _, _, _ => "bad-op\tagree"
+  | _ => "bad-op\tagree"
+
+def handle (l : String) : String :=
+  let (inp, go) := splitCase l
+  match fields inp with
+  | "rw" :: rest => handleRw rest go
+  | "tx" :: rest => handleTx rest go
+  | "blk" :: rest => handleBlk rest go
+  | _ => "bad-op\tagree"
 
 def main : IO Unit := runLines handle
